@@ -13,6 +13,9 @@ def main():
     if tier == "replay":
         replay = sys.argv[3]
         tier = "quick"
+    if replay:
+        import common
+        common.REPLAYS = "/verif/.work/replay_tmp"     # a replay run must not delete the file it replays
     ctx = Ctx(pid, tier, seed)
     ctx.replay = replay
     try:
